@@ -98,6 +98,26 @@ theorem split_quiet (quiet : List Nat) (evs : List (AEv × SoAns)) :
     · right
       exact ⟨[], ev, a, rest, rfl, (fun p hp => by cases hp), h⟩
 
+/-! ## connect(), synchronous part -/
+
+/-- the EINTR loop retries, the first other answer decides: success / EINPROGRESS register the fiber and close nothing; an
+    error closes the stream (hence the descriptor) exactly once and raises -/
+theorem connectCall_first (pre post : List ConnAns) (a : ConnAns) (hpre : ∀ x ∈ pre, x = .eintr) (ha : a ≠ .eintr) :
+    connectCall (pre ++ a :: post) =
+      ⟨(match a with | .err e => .raised e | _ => .registered), pre.length + 1, (match a with | .err _ => 1 | _ => 0)⟩ := by
+  induction pre with
+  | nil =>
+    cases a with
+    | eintr => exact absurd rfl ha
+    | ok => rfl
+    | inprogress => rfl
+    | err e => rfl
+  | cons x pre ih =>
+    have hx : x = .eintr := hpre x (by simp)
+    subst hx
+    have := ih (fun y hy => hpre y (by simp [hy]))
+    simp only [List.cons_append, connectCall, this, List.length_cons]
+
 /-! ## accept -/
 
 theorem acceptStep_other (tryEv closeEv : List Nat) (loop : Bool) (ev : AEv) (a : AccAns)
